@@ -4,7 +4,8 @@ import re
 
 from . import absint as A
 from .engine import comparison_of, normalise_le
-from .lib import PLUMBING, callee_allow, callers, closure_of_operand, lit_str, status_const_of_ctor, try_edges, operand_local
+from . import lib_c14 as L
+from .lib import PLUMBING, callers, lit_str, result_split, status_const_of_ctor
 
 LEVEL = "other"
 TECHNIQUE = ("static analysis: sibling agreement of the token encoder/decoder (engine constant, JSON type, version variant, normalised size predicate), value-preserving chains, "
@@ -48,15 +49,15 @@ LIMIT_READERS = {
 
 
 # ------------------------------------------------------------------------------------------------ helpers
-def _const_atoms(sl):
-    return [a for a in sl.atoms if a[0] in ("const", "lit")]
+VIEWS = AS_BYTES + [r"string::String::into_bytes$"]       # same bytes, other type
+STR_VIEWS = [r"string::String::as_str$", r"str::<impl str>::as_ref$"]
 
 
 def _pure_int_const(sl):
     """The slice is one integer constant and nothing else: (path-or-None, value) else None."""
     if sl.params() or sl.callees:
         return None
-    cs = _const_atoms(sl)
+    cs = [a for a in sl.atoms if a[0] in ("const", "lit")]
     others = [a for a in sl.atoms if a[0] not in ("const", "lit")]
     if len(cs) != 1 or others:
         return None
@@ -71,10 +72,10 @@ def _pure_int_const(sl):
 
 
 def size_bounds(f):
-    """Bool switches of f that compare a byte length with a pure integer constant.
-    Each: dict(bb, accept, reject, incl_max, const_path, const_val, len_term, len_slice)."""
+    """Bool switches of f (outside debug_assert! regions) that compare a length with a pure integer constant.
+    Each: dict(bb, accept, reject, incl_max, const_path, const_val, rel, len_op, len_slice)."""
     out = []
-    reach = f.reachable(0)
+    reach = f.reachable(0) - f.debug_only_blocks()
     for sbb, t in f.switches():
         if sbb not in reach:
             continue
@@ -86,21 +87,33 @@ def size_bounds(f):
             k = _pure_int_const(k_sl)
             if k is None:
                 continue
-            lens = [(cn, bb, tt) for cn, bb, tt in len_sl.callees if re.search(r"::len$|::count$", cn)]
-            if not lens:
+            if not any(re.search(r"::len$|::count$", cn) for cn, bb, tt in len_sl.callees):
                 continue
             for rel, x, y, edge in normalise_le(c):
                 if x is len_op and y is k_op and rel in ("le", "lt"):
                     acc = c[edge]
                     rej = c["false" if edge == "true" else "true"]
                     out.append({"bb": sbb, "accept": acc, "reject": rej, "incl_max": k[1] if rel == "le" else k[1] - 1,
-                                "const_path": k[0], "const_val": k[1], "rel": rel, "lens": lens, "len_slice": len_sl})
+                                "const_path": k[0], "const_val": k[1], "rel": rel, "len_op": len_op, "len_slice": len_sl})
     return out
 
 
-def _ok_returns(f):
+def _measured(f, b):
+    """What does the bounded quantity measure?  (origins of the compared value, origins of the receiver of every
+    length call among them) — variant-aware, so the error side of a `?`/match never counts."""
+    lo, _ = L.trace(f, b["len_op"], PLUMBING)
+    so = []
+    for o in lo:
+        if o.kind == "call" and o.node["args"]:
+            so += L.trace(f, o.node["args"][0], PLUMBING + VIEWS)[0]
+    return lo, so
+
+
+def _err_sites(f):
+    """Blocks that write a certain Err to the return place: `Err(..)` aggregates reaching _0 and `?` residual conversions."""
+    o, _ = L.trace(f, (0, (("dc", "Err"),)))
     reach = f.reachable(0)
-    return [(bb, st) for bb, i, st in f.aggregates(r"^std::result::Result$", "Ok") if st["pl"]["l"] == 0 and not st["pl"]["p"] and bb in reach]
+    return sorted(set(x.bb for x in o if x.bb in reach and (x.kind == "agg" or (x.kind == "call" and L.FROM_RESIDUAL.search(x.node.get("callee") or "")))))
 
 
 def _engine_paths(f, term):
@@ -121,6 +134,35 @@ def _one_call(ctx, R, f, rx, what):
         ctx.lost(R, "%s in %s (%d call sites)" % (what, f.id, len(cs)))
         return None
     return cs[0]
+
+
+def _version_variants(ctx, origins):
+    """Variant names of PaginationVersion a value can hold, from its origins: an aggregate `PaginationVersion::V1`, or a
+    named constant of that type (its evaluated value: a zero-sized value of a single-variant enum is that variant, an
+    integer is the variant index of a field-less enum).  None if any origin is something else."""
+    adt = ctx.ds.adts[VERSION_ADT]
+    names = set()
+    for o in origins:
+        if o.proj:
+            return None
+        if o.kind == "agg" and o.info.get("adt") == VERSION_ADT:
+            names.add(o.info["variant"])
+        elif o.kind == "const" and o.info.get("ty") == VERSION_ADT:
+            v = o.info.get("val") or {}
+            if v.get("zst") and len(adt["variants"]) == 1:
+                names.add(adt["variants"][0]["name"])
+            elif "int" in v and all(not x["fields"] for x in adt["variants"]) and v["int"] < len(adt["variants"]):
+                names.add(adt["variants"][v["int"]]["name"])
+            else:
+                return None
+        else:
+            return None
+    return sorted(names)
+
+
+def _is_parsed_field(o, jin_bb, field):
+    """origin = field `field` of the Ok payload of the serde_json parse at jin_bb"""
+    return o.is_call(JSON_IN, jin_bb) and len(o.proj) == 3 and L._same(o.proj[:2], L.OK_0) and o.proj[2][0] == "f" and o.proj[2][2] == field
 
 
 # ------------------------------------------------------------------------------------------------ R1
@@ -144,87 +186,73 @@ def r1_codec(ctx, rid="C14.R1"):
     td = (jin[1].get("gargs") or [None])[-1]
     ctx.check(R, "same-json-type", te is not None and te == td and te.startswith(TOKEN_ADT + "<"),
               "serde_json serialises %s and parses %s" % (te, td), (fd, jin[0]))
-    # encoder chain: Ok(x) <- encode(json) <- to_vec(&SerializedToken{v, page_start: param})
-    oks = _ok_returns(fs)
-    okc = bool(oks)
-    for bb, st in oks:
-        sl = fs.slice(st["rv"]["ops"][0])
-        bad = callee_allow(sl, PLUMBING + [B64_ENC, JSON_OUT, r"Result::<T, E>::map_err$"])
-        okc = okc and any(b == enc[0] for _, b, _ in sl.calls(B64_ENC)) and not bad
-    ctx.check(R, "issued-token-is-the-encoding", okc, "every Ok(..) of the encoder is the Engine::encode result, untransformed (%d Ok sites)" % len(oks), fs)
-    s_data = fs.slice(enc[1]["args"][1])
-    bad = callee_allow(s_data, PLUMBING + AS_BYTES + [JSON_OUT, r"Result::<T, E>::map_err$", r"string::String::into_bytes$"])
-    ctx.check(R, "encoded-bytes-are-the-json", any(b == jout[0] for _, b, _ in s_data.calls(JSON_OUT)) and not bad,
-              "Engine::encode's data argument derives from serde_json::to_vec via %s" % ([b[0] for b in bad] or "`?`/map_err only"), (fs, enc[0]))
-    aggs = [(bb, st) for bb, i, st in fs.aggregates("^" + re.escape(TOKEN_ADT) + "$") if bb in fs.reachable(0)]
+    # encoder chain: Ok payload <- encode(json bytes) <- Ok payload of to_vec(&SerializedToken{v, page_start: param})
+    o, _ = L.ok_payload(fs)
+    ctx.check(R, "issued-token-is-the-encoding", L.only_call(o, B64_ENC, enc[0], ()),
+              "the Ok payload returned by the encoder originates from %s (must be the Engine::encode result, untransformed)" % L.describe(o), fs)
+    o, _ = L.trace(fs, enc[1]["args"][1], PLUMBING + VIEWS)
+    ctx.check(R, "encoded-bytes-are-the-json", L.only_call(o, JSON_OUT, jout[0], L.OK_0),
+              "Engine::encode's data argument originates from %s (must be the Ok payload of serde_json::to_vec)" % L.describe(o), (fs, enc[0]))
+    o, _ = L.trace(fs, jout[1]["args"][0], PLUMBING)
     vi, pi = _field_index(ctx, TOKEN_ADT, "v"), _field_index(ctx, TOKEN_ADT, "page_start")
+    tok = o[0] if len(o) == 1 and o[0].kind == "agg" and o[0].info.get("adt") == TOKEN_ADT and not o[0].proj else None
     written = None
-    if len(aggs) != 1 or vi is None or pi is None:
-        ctx.lost(R, "the single SerializedToken{v, page_start} aggregate in the encoder")
+    ctx.check(R, "json-input-is-the-token-struct", tok is not None, "serde_json::to_vec's argument originates from %s (must be one SerializedToken{..} aggregate)" % L.describe(o), (fs, jout[0]))
+    if tok is None or vi is None or pi is None:
+        ctx.lost(R, "the SerializedToken{v, page_start} aggregate serialised by the encoder")
     else:
-        abb, ast = aggs[0]
-        s_json = fs.slice(jout[1]["args"][0])
-        dest = ast["pl"]["l"]
-        ctx.check(R, "json-input-is-the-token-struct", s_json.touches_local(dest) and not s_json.callees,
-                  "serde_json::to_vec's argument is a reference to the SerializedToken aggregate", (fs, jout[0]))
-        sp = fs.slice(ast["rv"]["ops"][pi])
-        ctx.check(R, "page_start-is-the-argument", sp.params() == [1] and not sp.callees and not _const_atoms(sp),
-                  "SerializedToken.page_start slices to params %s, callees %s" % (sp.params(), sp.callee_names()), (fs, abb))
-        sv = fs.slice(ast["rv"]["ops"][vi])
-        vs = sorted(set(a[2] for a in sv.atoms if a[0] == "agg" and a[1] == VERSION_ADT))
-        written = vs[0] if len(vs) == 1 else None
-        ctx.check(R, "version-written", written is not None and not sv.params() and not sv.callees, "SerializedToken.v is the constant variant %s" % vs, (fs, abb))
+        sp, _ = L.trace(fs, tok.info["fields"][pi], PLUMBING)
+        ctx.check(R, "page_start-is-the-argument", L.only_param(sp, 1), "SerializedToken.page_start originates from %s" % L.describe(sp), (fs, tok.bb))
+        sv, _ = L.trace(fs, tok.info["fields"][vi])
+        vs = _version_variants(ctx, sv)
+        written = vs[0] if vs and len(vs) == 1 else None
+        ctx.check(R, "version-written", written is not None, "SerializedToken.v originates from %s = variant %s" % (L.describe(sv), vs), (fs, tok.bb))
     # decoder chain
-    s_in = fd.slice(dec[1]["args"][1])
-    bad = callee_allow(s_in, PLUMBING + AS_BYTES)
-    ctx.check(R, "decoded-text-is-the-argument", s_in.params() == [1] and not bad,
-              "Engine::decode's input slices to params %s via %s" % (s_in.params(), [b[0] for b in bad] or "as_bytes only"), (fd, dec[0]))
-    s_j = fd.slice(jin[1]["args"][0])
-    bad = callee_allow(s_j, PLUMBING + AS_BYTES + [B64_DEC, r"Result::<T, E>::map_err$"])
-    ctx.check(R, "json-parses-the-decoded-bytes", any(b == dec[0] for _, b, _ in s_j.calls(B64_DEC)) and not bad,
-              "serde_json::from_slice's input derives from Engine::decode via %s" % ([b[0] for b in bad] or "`?`/map_err/deref only"), (fd, jin[0]))
-    oks = _ok_returns(fd)
-    okd = bool(oks)
-    for bb, st in oks:
-        sl = fd.slice(st["rv"]["ops"][0], stop_at_calls=JSON_IN)
-        bad = callee_allow(sl, PLUMBING + [JSON_IN, r"Result::<T, E>::map_err$"])
-        okd = okd and any(b == jin[0] for _, b, _ in sl.calls(JSON_IN)) and sl.reads_field("page_start") and not bad and not _const_atoms(sl)
-    ctx.check(R, "selector-is-parsed-page_start", okd, "every Ok(..) of the decoder is the page_start field of the from_slice result, untransformed (%d Ok sites)" % len(oks), fd)
+    o, _ = L.trace(fd, dec[1]["args"][1], PLUMBING + AS_BYTES)
+    ctx.check(R, "decoded-text-is-the-argument", L.only_param(o, 1), "Engine::decode's input originates from %s (must be the token text, untransformed)" % L.describe(o), (fd, dec[0]))
+    o, _ = L.trace(fd, jin[1]["args"][0], PLUMBING + AS_BYTES)
+    ctx.check(R, "json-parses-the-decoded-bytes", L.only_call(o, B64_DEC, dec[0], L.OK_0),
+              "serde_json::from_slice's input originates from %s (must be the Ok payload of Engine::decode)" % L.describe(o), (fd, jin[0]))
+    o, _ = L.ok_payload(fd)
+    ctx.check(R, "selector-is-parsed-page_start", len(o) == 1 and _is_parsed_field(o[0], jin[0], "page_start"),
+              "the Ok payload returned by the decoder originates from %s (must be the page_start field of the parsed token)" % L.describe(o), fd)
     # version acceptance
     nvar = len(ctx.ds.adts[VERSION_ADT]["variants"])
+    feas = L.Feas(fd)
     accepted = []
+    reach = fd.reachable(0) - fd.debug_only_blocks()
     for sbb, t in fd.switches():
-        if sbb not in fd.reachable(0):
+        if sbb not in reach:
             continue
         c = comparison_of(fd, sbb)
         if c:
-            sa, sb = fd.slice(c["a"]), fd.slice(c["b"])
-            for val, const in ((sa, sb), (sb, sa)):
-                cv = sorted(set(a[2] for a in const.atoms if a[0] == "agg" and a[1] == VERSION_ADT))
-                if val.reads_field("v") and val.has_call(JSON_IN) and len(cv) == 1 and not const.callees and not const.params():
+            oa, ob = L.trace(fd, c["a"], PLUMBING)[0], L.trace(fd, c["b"], PLUMBING)[0]
+            for val, const in ((oa, ob), (ob, oa)):
+                cv = _version_variants(ctx, const)
+                if len(val) == 1 and _is_parsed_field(val[0], jin[0], "v") and cv and len(cv) == 1:
                     for rel, x, y, edge in normalise_le(c):
                         if rel == "eq":
                             accepted.append((sbb, c[edge], cv[0]))
         else:
             info = fd.switch_on(sbb)
             if info["kind"] == "discr" and info.get("adt") == VERSION_ADT:
-                pl = info["place"]
-                if any(isinstance(e, dict) and e.get("n") == "v" for e in pl["p"]):
-                    for val, name in info["variants"].items():
-                        accepted.append((sbb, fd.switch_target(sbb, val), name))
-    oks_bb = [bb for bb, _ in _ok_returns(fd)]
-    guards = [(sbb, tgt, name) for sbb, tgt, name in accepted if oks_bb and all(fd.edge_dominates(sbb, tgt, ob) for ob in oks_bb)]
+                val = L.trace(fd, info["place"], PLUMBING)[0]
+                if len(val) == 1 and _is_parsed_field(val[0], jin[0], "v"):
+                    for v, name in info["variants"].items():
+                        accepted.append((sbb, fd.switch_target(sbb, v), name))
+    oks_bb = L.ok_sites(fd)
+    guards = [(sbb, tgt, name) for sbb, tgt, name in accepted if oks_bb and all(feas.edge_dominates(sbb, tgt, ob) for ob in oks_bb)]
     if guards:
         names = sorted(set(n for _, _, n in guards))
         ctx.check(R, "version-accepted-is-version-written", names == [written],
-                  "decoder's Ok is dominated by `v == %s`; encoder writes %s" % (names, written), (fd, guards[0][0]))
+                  "every Ok of the decoder is reached only through `v == %s`; encoder writes %s" % (names, written), (fd, guards[0][0]))
     elif nvar == 1:
         der = [i for i in ctx.ds.impls if "Deserialize" in i["trait"] and i["self"].startswith(VERSION_ADT)]
         ctx.check(R, "version-accepted-is-version-written", bool(der) and written == ctx.ds.adts[VERSION_ADT]["variants"][0]["name"],
                   "PaginationVersion has the single variant %s (written by the encoder); any other text is refused by its derived Deserialize impl (%d impl)" % (written, len(der)), fd, nontrivial=False)
     else:
         ctx.check(R, "version-accepted-is-version-written", False,
-                  "PaginationVersion has %d variants but no `v == <variant>` edge dominates the decoder's Ok" % nvar, fd)
+                  "PaginationVersion has %d variants but no `v == <variant>` test guards the decoder's Ok" % nvar, fd)
 
 
 # ------------------------------------------------------------------------------------------------ R2
@@ -237,9 +265,9 @@ def r2_bound(ctx, rid="C14.R2"):
     dec = _one_call(ctx, R, fd, B64_DEC, "base64 Engine::decode")
     if not (enc and dec):
         return
-    # issuer: bound on len(encode result)
+    # issuer: bound on len(encode result); acceptor: bound on len(token text)
     bs = [b for b in size_bounds(fs) if any(bb == enc[0] for _, bb, _ in b["len_slice"].calls(B64_ENC))]
-    bd = [b for b in size_bounds(fd) if b["len_slice"].params() == [1]]
+    bd = [b for b in size_bounds(fd) if 1 in b["len_slice"].params()]
     if len(bs) != 1:
         ctx.lost(R, "the issuer's size test on the encoded token (found %d)" % len(bs))
     if len(bd) != 1:
@@ -248,83 +276,104 @@ def r2_bound(ctx, rid="C14.R2"):
         return
     bs, bd = bs[0], bd[0]
     for who, f, b in (("issuer", fs, bs), ("acceptor", fd, bd)):
-        names = sorted(set(cn for cn, _, _ in b["lens"]))
-        bad = callee_allow(b["len_slice"], PLUMBING + AS_BYTES + [BYTE_LEN, B64_ENC, JSON_OUT, r"Result::<T, E>::map_err$"])
-        ctx.check(R, "%s-measures-byte-length" % who, all(re.search(BYTE_LEN, n) for n in names) and not bad and ("binop", "Add") not in b["len_slice"].atoms
-                  and not any(a[0] == "binop" for a in b["len_slice"].atoms),
-                  "%s compares %s of %s with %s=%d (accepts len <= %d)" % (who, names, "the encoded string" if who == "issuer" else "the token text as received",
-                                                                          b["const_path"] or "literal", b["const_val"], b["incl_max"]), (f, b["bb"]))
+        lo, so = _measured(f, b)
+        is_len = bool(lo) and all(o.kind == "call" and not o.proj and re.search(BYTE_LEN, o.node.get("callee") or "") for o in lo)
+        of_str = L.only_call(so, B64_ENC, enc[0], ()) if who == "issuer" else L.only_param(so, 1)
+        ctx.check(R, "%s-measures-byte-length" % who, is_len and of_str,
+                  "%s compares %s of %s with %s=%d (accepts len <= %d); must be the byte length of %s" % (
+                      who, L.describe(lo), L.describe(so), b["const_path"] or "literal", b["const_val"], b["incl_max"],
+                      "the encoded string" if who == "issuer" else "the token text as received"), (f, b["bb"]))
     ctx.check(R, "issued-length-always-accepted", bs["incl_max"] <= bd["incl_max"],
               "issuer accepts len <= %d (%s %s), acceptor accepts len <= %d (%s %s): %s" % (
                   bs["incl_max"], "<=" if bs["rel"] == "le" else "<", bs["const_path"] or bs["const_val"], bd["incl_max"], "<=" if bd["rel"] == "le" else "<", bd["const_path"] or bd["const_val"],
                   "every issued token passes the acceptor's size test" if bs["incl_max"] <= bd["incl_max"] else
                   "a token of length %d is issued and then refused as too large" % bs["incl_max"]), (fd, bd["bb"]))
-    # dominance: issuer
-    oks = _ok_returns(fs)
-    ctx.check(R, "issuer-bound-dominates-Ok", bool(oks) and all(fs.edge_dominates(bs["bb"], bs["accept"], ob) for ob, _ in oks)
-              and not any(ob in fs.reachable(bs["reject"]) for ob, _ in oks),
+    # dominance: issuer (path facts know the variant of Result locals, so `check(..)?` guards as well as an early return)
+    feas_s, feas_d = L.Feas(fs), L.Feas(fd)
+    oks = L.ok_sites(fs)
+    rej_s = feas_s.after_edge(bs["bb"], bs["reject"])
+    ctx.check(R, "issuer-bound-dominates-Ok", bool(oks) and all(feas_s.edge_dominates(bs["bb"], bs["accept"], ob) for ob in oks) and not any(ob in rej_s for ob in oks),
               "every Ok(token) is reached only through the `len <= %d` edge; the other edge reaches no Ok" % bs["incl_max"], (fs, bs["bb"]))
     # the measured string is the returned string
-    same = all(any(bb == enc[0] for _, bb, _ in fs.slice(st["rv"]["ops"][0]).calls(B64_ENC)) for _, st in oks)
-    ctx.check(R, "issuer-measures-what-it-returns", same, "the measured string and the returned token are the same Engine::encode result", fs)
+    o, _ = L.ok_payload(fs)
+    ctx.check(R, "issuer-measures-what-it-returns", L.only_call(o, B64_ENC, enc[0], ()), "the measured string and the returned token are the same Engine::encode result (returned: %s)" % L.describe(o), fs)
     # dominance: acceptor
     parse_sites = [dec[0]] + [bb for bb, _ in fd.live_calls(JSON_IN)]
-    rej = fd.reachable(bd["reject"])
-    ctx.check(R, "acceptor-bound-dominates-decoding", all(fd.edge_dominates(bd["bb"], bd["accept"], p) for p in parse_sites)
-              and not any(p in rej for p in parse_sites) and not any(ob in rej for ob, _ in _ok_returns(fd)),
+    rej = feas_d.after_edge(bd["bb"], bd["reject"])
+    okd = L.ok_sites(fd)
+    ctx.check(R, "acceptor-bound-dominates-decoding", all(feas_d.edge_dominates(bd["bb"], bd["accept"], p) for p in parse_sites)
+              and not any(p in rej for p in parse_sites) and not any(ob in rej for ob in okd),
               "base64/JSON parsing and Ok are reached only through the `len <= %d` edge; the over-long edge parses nothing and returns Err" % bd["incl_max"], (fd, bd["bb"]))
-    errs = [bb for bb, i, st in fd.aggregates(r"^std::result::Result$", "Err") if st["pl"]["l"] == 0 and bb in rej]
-    ctx.check(R, "over-long-is-Err", bool(errs) and fd.must_pass(errs, start=bd["reject"]), "the over-long edge always passes an Err(..) return value", (fd, bd["reject"]))
+    errs = _err_sites(fd)
+    ctx.check(R, "over-long-is-Err", bool(errs) and feas_d.must_pass_after(bd["bb"], bd["reject"], errs), "the over-long edge always passes an Err(..) return value", (fd, bd["reject"]))
     ctx.notes["token_bound"] = {"issuer_max_len": bs["incl_max"], "acceptor_max_len": bd["incl_max"]}
 
 
 # ------------------------------------------------------------------------------------------------ R3
+def _is_custom(ctx, tr):
+    if tr[0] == "fn":
+        return tr[1].endswith("de::Error::custom")
+    if tr[0] == "closure":
+        g = ctx.ds.F.get(tr[1])
+        if g is None:
+            return False
+        o, _ = L.trace(g, (0, ()), PLUMBING)
+        return bool(o) and all(x.is_call(r"de::Error::custom$") for x in o)
+    return False
+
+
 def r3_failures(ctx, rid="C14.R3"):
     R = ctx.rule(rid, "every decoder failure is an Err(String) which deserialize_whichpage maps through serde::de::Error::custom and propagates; the query loader turns "
-                 "the deserialisation error into for_bad_request (400); the decoder region contains no panic site", floor=10)
+                 "the deserialisation error into for_bad_request (400); the decoder region contains no panic site", floor=8)
     fd = ctx.need_fn(ctx.ds, R, DE)
     fw = ctx.need_fn(ctx.ds, R, WHICH)
     ret = fd.local_ty(0)
     ctx.check(R, "decoder-error-type", bool(re.match(r"^std::result::Result<.*, std::string::String>$", ret)), "deserialize_page_token returns %s" % ret, fd, nontrivial=False)
-    # census of panics
-    for g in [fd] + ctx.ds.descendants(fd) + [fw] + ctx.ds.descendants(fw):
-        reach = g.reachable(0)
-        pan = [(bb, t["callee"]) for bb, t in g.live_calls(PANICS)]
-        asserts = [b["bb"] for b in g.blocks if b["term"]["t"] == "assert" and not b["cleanup"] and b["bb"] in reach]
-        ctx.check(R, "no-panic-site:%s" % g.id, not pan and not asserts, "panic-capable calls %s, checked-arithmetic/bounds asserts %d" % ([p[1] for p in pan], len(asserts)), g)
+    # census of panics: one instance per function, covering its closures (debug_assert! regions are not in the shipped build)
+    for root in (fd, fw):
+        pan, asserts, n = [], 0, 0
+        for g in [root] + ctx.ds.descendants(root):
+            n += 1
+            reach = g.reachable(0) - g.debug_only_blocks()
+            pan += [t["callee"] for bb, t in g.calls(PANICS) if bb in reach]
+            asserts += len([b["bb"] for b in g.blocks if b["term"]["t"] == "assert" and not b["cleanup"] and b["bb"] in reach])
+        ctx.check(R, "no-panic-site:%s" % root.id, not pan and not asserts, "%d bodies (function + closures): panic-capable calls %s, checked-arithmetic/bounds asserts %d" % (n, pan, asserts), root)
     # only caller
     cs = callers(ctx.ds, DE)
     ctx.check(R, "decoder-called-only-by-whichpage", [f.id for f, _, _ in cs] == [fw.id], "callers of deserialize_page_token: %s" % [f.id for f, _, _ in cs], fw)
     if len(cs) != 1 or cs[0][0] is not fw:
         return
     _, cbb, ct = cs[0]
-    # map_err(custom) + `?`
-    tries = []
-    for tbb, tt in fw.live_calls(r"ops::Try::branch$"):
-        sl = fw.slice(tt["args"][0], stop_at_calls=DE)
-        if any(b == cbb for _, b, _ in sl.calls(DE)):
-            tries.append((tbb, tt, sl))
-    if len(tries) != 1:
-        ctx.lost(R, "`?` on the decoder's result in deserialize_whichpage (%d)" % len(tries))
-        return
-    tbb, tt, sl = tries[0]
-    bad = callee_allow(sl, PLUMBING + [DE, r"Result::<T, E>::map_err$"])
-    custom = any(a[0] == "fnitem" and a[1].endswith("de::Error::custom") for a in sl.atoms)
-    if not custom:
-        for c, mbb, mt in sl.calls(r"Result::<T, E>::map_err$"):
-            for a in mt["args"][1:]:
-                g, _n = closure_of_operand(fw, a)
-                if g is not None and g.slice({"l": 0, "p": []}).has_call(r"de::Error::custom$"):
-                    custom = True
-    ctx.check(R, "token-error-becomes-serde-error", custom and not bad, "decoder result -> map_err(serde::de::Error::custom)=%s -> `?`; other callees %s" % (custom, [b[0] for b in bad]), (fw, tbb))
-    te = try_edges(fw, operand_local(tt["args"][0]))
-    if not te:
-        ctx.lost(R, "switch of the `?` on the decoder's result")
-        return
-    pages = [bb for bb, i, st in fw.aggregates(r"^pagination::WhichPage$")]
-    brk = fw.reachable(te["brk"])
-    ctx.check(R, "token-error-propagates", not any(p in brk for p in pages) and not any(ob in brk for ob, _ in _ok_returns(fw)),
-              "the Break edge of the `?` builds no WhichPage and no Ok", (fw, te["switch_bb"]))
+    # forward flow of the decoder's Err payload: `.map_err(custom)?`, `?` then map_err, `match { Err(m) => Err(custom(m)) }` are the same flow
+    ends = L.err_flow(fw, ct["dest"]["l"])
+    returned = [e for e in ends if e["kind"] == "returned"]
+    unknown = [e for e in ends if e["kind"] != "returned"]
+    passthrough = re.compile(r"convert::(From::from|Into::into)$")
+
+    def fine(e):
+        cust = [t for t in e["transforms"] if _is_custom(ctx, t)]
+        rest = [t for t in e["transforms"] if not _is_custom(ctx, t) and t != ("from",) and not (t[0] == "fn" and passthrough.search(t[1]))]
+        return len(cust) == 1 and not rest
+
+    def show(e):
+        return "[%s]" % ", ".join("?" if t == ("from",) else t[1].split("::")[-1] for t in e["transforms"])
+    ctx.check(R, "token-error-becomes-serde-error", bool(returned) and not unknown and all(fine(e) for e in returned),
+              "the decoder's Err(String) is returned after %s; other uses of it: %s (must be exactly serde::de::Error::custom)" % (
+                  [show(e) for e in returned] or "nothing", [e["detail"] for e in unknown] or "none"), (fw, cbb))
+    sites = [e["bb"] for e in returned if e["bb"] is not None]
+    split = result_split(fw, ct["dest"]["l"])
+    feas = L.Feas(fw)
+    oks = L.ok_sites(fw)
+    if split:
+        after = feas.after_edge(split["switch_bb"], split["err"])
+        prop = bool(sites) and feas.must_pass_after(split["switch_bb"], split["err"], sites) and not any(ob in after for ob in oks)
+        where = (fw, split["switch_bb"])
+        how = "the Err edge of the %s on the decoder's result" % split["via"][-1]
+    else:
+        prop = bool(sites) and ct.get("to") is not None and fw.must_pass(sites, start=ct["to"])
+        where = (fw, cbb)
+        how = "the decoder's result is never split: it"
+    ctx.check(R, "token-error-propagates", prop, "%s always reaches the return of the mapped error and builds no Ok / WhichPage" % how, where)
     # the query loader
     ql = callers(ctx.ds, r"^serde_urlencoded::from_str$")
     ctx.check(R, "one-query-loader", len(ql) == 1, "callers of serde_urlencoded::from_str: %s" % [f.id for f, _, _ in ql], ql[0][0] if ql else None)
@@ -353,48 +402,45 @@ def r4_token_wins(ctx, rid="C14.R4"):
     sch = ctx.ds.adts.get("pagination::SchemaPaginationParams")
     names = [fl["name"] for fl in sch["variants"][0]["fields"]] if sch else []
     ctx.check(R, "key-is-the-documented-parameter", "page_token" in names and "limit" in names, "schema struct documents query parameters %s; the lookup key is \"page_token\"" % names, (fw, gbb), nontrivial=False)
-    sw = [(sbb, info) for sbb, info in ((sbb, fw.switch_on(sbb)) for sbb, _ in fw.switches())
-          if info["kind"] == "discr" and info["place"]["l"] == gt["dest"]["l"] and not info["place"]["p"]]
+    # the test of the lookup result, in any spelling (match / if let / let-else / is_some)
+    sw = [(sbb, st, nt) for sbb, st, nt, optop in L.option_edges(fw) if L.only_call(L.trace(fw, optop, PLUMBING)[0], r"::get$", gbb, ())]
     if len(sw) != 1:
-        ctx.lost(R, "match on the result of get(\"page_token\") (%d switches)" % len(sw))
+        ctx.lost(R, "the Some/None test of the result of get(\"page_token\") (%d tests)" % len(sw))
         return
-    sbb, info = sw[0]
-    vidx = {n: v for v, n in info["variants"].items()}
-    some_t, none_t = fw.switch_target(sbb, vidx["Some"]), fw.switch_target(sbb, vidx["None"])
-    some_r, none_r = fw.reachable(some_t), fw.reachable(none_t)
+    sbb, some_t, none_t = sw[0]
+    feas = L.Feas(fw)
+    some_r, none_r = feas.after_edge(sbb, some_t), feas.after_edge(sbb, none_t)
     dps = fw.live_calls(DE)
     fms = fw.live_calls(r"^from_map::from_map$")
-    nexts = [(bb, st) for bb, i, st in fw.aggregates(r"^pagination::WhichPage$", "Next")]
-    firsts = [(bb, st) for bb, i, st in fw.aggregates(r"^pagination::WhichPage$", "First")]
-    ctx.check(R, "some-arm-decodes-the-token", len(dps) == 1 and all(fw.edge_dominates(sbb, some_t, bb) for bb, _ in dps),
+    pages, _ = L.ok_payload(fw)
+    nexts = [o for o in pages if o.kind == "agg" and o.info.get("adt") == "pagination::WhichPage" and o.info.get("variant") == "Next" and not o.proj]
+    firsts = [o for o in pages if o.kind == "agg" and o.info.get("adt") == "pagination::WhichPage" and o.info.get("variant") == "First" and not o.proj]
+    others = [o for o in pages if o not in nexts and o not in firsts]
+    ctx.check(R, "some-arm-decodes-the-token", len(dps) == 1 and all(feas.edge_dominates(sbb, some_t, bb) for bb, _ in dps),
               "deserialize_page_token call sites: %d, all on the Some edge" % len(dps), (fw, sbb))
     for bb, t in dps:
-        s = fw.slice(t["args"][0], stop_at_calls=r"::get$")
-        bad = callee_allow(s, PLUMBING + [r"::get$"])
-        ctx.check(R, "decoder-input-is-the-token-value", any(b == gbb for _, b, _ in s.calls(r"::get$")) and not bad,
-                  "deserialize_page_token's argument is the Some payload of get(\"page_token\") via %s" % ([b[0] for b in bad] or "deref only"), (fw, bb))
-    ctx.check(R, "some-arm-ignores-scan-params", not any(bb in some_r for bb, _ in fms) and not any(bb in some_r for bb, _ in firsts),
-              "from_map / WhichPage::First reachable on the Some edge: %s" % ([bb for bb, _ in fms if bb in some_r] != [] or [bb for bb, _ in firsts if bb in some_r] != []), (fw, some_t))
-    ok_next = len(nexts) >= 1
-    for bb, st in nexts:
-        s = fw.slice(st["rv"]["ops"][0], stop_at_calls=DE)
-        bad = callee_allow(s, PLUMBING + [DE, r"Result::<T, E>::map_err$"])
-        ok_next = ok_next and s.has_call(DE) and not bad and fw.edge_dominates(sbb, some_t, bb)
-    ctx.check(R, "next-is-the-decoded-selector", ok_next, "WhichPage::Next(..) sites %d: payload is the `?` payload of deserialize_page_token, on the Some edge" % len(nexts), fw)
-    ok_first = len(firsts) >= 1 and len(fms) >= 1
-    for bb, st in firsts:
-        s = fw.slice(st["rv"]["ops"][0], stop_at_calls=r"^from_map::from_map$")
-        bad = callee_allow(s, PLUMBING + [r"^from_map::from_map$", r"Result::<T, E>::map_err$"])
-        ok_first = ok_first and s.has_call(r"^from_map::from_map$") and not bad and fw.edge_dominates(sbb, none_t, bb)
-    ctx.check(R, "first-is-from_map-on-none-arm", ok_first and not any(bb in none_r for bb, _ in dps) and not any(bb in none_r for bb, _ in nexts),
-              "WhichPage::First(..) sites %d: payload is from_map(raw params)?, only on the None edge; no token decoding on the None edge" % len(firsts), fw)
+        o, _ = L.trace(fw, t["args"][0], PLUMBING + STR_VIEWS)
+        ctx.check(R, "decoder-input-is-the-token-value", L.only_call(o, r"::get$", gbb, L.SOME_0),
+                  "deserialize_page_token's argument originates from %s (must be the Some payload of get(\"page_token\"))" % L.describe(o), (fw, bb))
+    ctx.check(R, "some-arm-ignores-scan-params", not any(bb in some_r for bb, _ in fms) and not any(o.bb in some_r for o in firsts),
+              "from_map / WhichPage::First reachable on the Some edge: %s" % ([bb for bb, _ in fms if bb in some_r] != [] or [o.bb for o in firsts if o.bb in some_r] != []), (fw, some_t))
+    ok_next = len(nexts) >= 1 and not others
+    for o in nexts:
+        po, _ = L.trace(fw, o.info["fields"][0], PLUMBING)
+        ok_next = ok_next and len(dps) == 1 and L.only_call(po, DE, dps[0][0], L.OK_0) and feas.edge_dominates(sbb, some_t, o.bb)
+    ctx.check(R, "next-is-the-decoded-selector", ok_next, "returned pages: %s; WhichPage::Next(..) sites %d: payload is the Ok payload of deserialize_page_token, on the Some edge" % (L.describe(pages), len(nexts)), fw)
+    ok_first = len(firsts) >= 1 and len(fms) >= 1 and not others
+    for o in firsts:
+        po, _ = L.trace(fw, o.info["fields"][0], PLUMBING)
+        ok_first = ok_first and len(po) == 1 and po[0].is_call(r"^from_map::from_map$", None, L.OK_0) and po[0].bb in [bb for bb, _ in fms] and feas.edge_dominates(sbb, none_t, o.bb)
+    ctx.check(R, "first-is-from_map-on-none-arm", ok_first and not any(bb in none_r for bb, _ in dps) and not any(o.bb in none_r for o in nexts),
+              "WhichPage::First(..) sites %d: payload is the Ok payload of from_map(raw params), only on the None edge; no token decoding on the None edge" % len(firsts), fw)
     # from_map reads the same map that was searched
+    b, _ = L.trace(fw, gt["args"][0], PLUMBING)
     for bb, t in fms:
-        a = fw.slice(t["args"][0], stop_at_calls=r"Deserialize::deserialize$")
-        b = fw.slice(gt["args"][0], stop_at_calls=r"Deserialize::deserialize$")
-        la = set(x for x in a.locals()) & set(x for x in b.locals())
-        ctx.check(R, "one-raw-map", bool(la) and not callee_allow(a, PLUMBING + [r"Deserialize::deserialize$"]),
-                  "from_map and get(\"page_token\") read the same deserialised parameter map", (fw, bb))
+        a, _ = L.trace(fw, t["args"][0], PLUMBING)
+        same = len(a) == 1 and len(b) == 1 and a[0].is_call(r"Deserialize::deserialize$", None, L.OK_0) and b[0].is_call(r"Deserialize::deserialize$", a[0].bb, L.OK_0)
+        ctx.check(R, "one-raw-map", same, "from_map reads %s, get(\"page_token\") searches %s (must be the same deserialised parameter map)" % (L.describe(a), L.describe(b)), (fw, bb))
 
 
 def lit_str_of(f, op):
